@@ -410,3 +410,24 @@ Fixpoint run (c : cfg) (s : sess) (ls : list label) : option sess :=
   | [] => Some s
   | l :: tl => match step c s l with None => None | Some s' => run c s' tl end
   end.
+
+(* ---------------------------------------------------------------- the refresh debouncer (host_source.go) *)
+(* refreshDebouncer as a small transition system.  debounce() re-arms the timer (also while a refresh is
+   running: the flusher holds no lock during refreshFn); the flusher takes the expired timer only when
+   it is not inside refreshFn, disarms it and calls refreshFn; refreshFn returns. *)
+Inductive rdlabel := RDRequest | RDStart | RDEnd.
+Record rdstate := mkRD { rd_armed : bool; rd_running : bool }.
+Definition rd_init : rdstate := mkRD false false.
+
+Definition rd_step (s : rdstate) (l : rdlabel) : option rdstate :=
+  match l with
+  | RDRequest => Some (mkRD true (rd_running s))
+  | RDStart => if rd_armed s && negb (rd_running s) then Some (mkRD false true) else None
+  | RDEnd => if rd_running s then Some (mkRD (rd_armed s) false) else None
+  end.
+
+Fixpoint rd_run (s : rdstate) (tr : list rdlabel) : option rdstate :=
+  match tr with
+  | [] => Some s
+  | l :: tl => match rd_step s l with Some s' => rd_run s' tl | None => None end
+  end.
